@@ -138,31 +138,50 @@ Definition h_leaf_set (tm : list (key * hv)) (k : key) (v : hv) : list (key * hv
   | None => dset k v tm
   end.
 
-(* copy.deepcopy(v) *)
-Fixpoint hdeepcopy (fuel : nat) (h : heap) (v : hv) {struct fuel} : heap * hv :=
+(* copy.deepcopy(v) with its memo: a dict object that is reachable twice is copied ONCE (the copy keeps the internal sharing
+   of the original); the new dict is memoised before it is filled, as copy._deepcopy_dict does *)
+Fixpoint memo_get (l : nat) (memo : list (nat * nat)) : option nat :=
+  match memo with
+  | [] => None
+  | (a, b) :: r => if Nat.eqb l a then Some b else memo_get l r
+  end.
+
+Fixpoint hdeepcopy (fuel : nat) (h : heap) (memo : list (nat * nat)) (v : hv) {struct fuel}
+  : heap * list (nat * nat) * hv :=
   match v with
-  | HL _ _ => (h, v)
+  | HL _ _ => (h, memo, v)
   | HR l =>
       match fuel with
-      | O => (h, v)
+      | O => (h, memo, v)
       | S f =>
-          let '(h1, items) :=
-            fold_left (fun (st : heap * list (list N * hv)) (kv : list N * hv) =>
-                         let '(h', r) := hdeepcopy f (fst st) (snd kv) in (h', snd st ++ [(fst kv, r)]))
-                      (hget h l) (h, []) in
-          let '(h2, l') := halloc h1 items in (h2, HR l')
+          match memo_get l memo with
+          | Some l' => (h, memo, HR l')
+          | None =>
+              let '(h1, l') := halloc h [] in
+              let '(h2, memo2, items) :=
+                fold_left (fun (st : heap * list (nat * nat) * list (list N * hv)) (kv : list N * hv) =>
+                             let '(h', m', acc) := st in
+                             let '(h'', m'', r) := hdeepcopy f h' m' (snd kv) in
+                             (h'', m'', acc ++ [(fst kv, r)]))
+                          (hget h l) (h1, (l, l') :: memo, []) in
+              (hset h2 l' items, memo2, HR l')
+          end
       end
   end.
 
 (* deep_update(target, source) on the heap: returns the heap afterwards and the returned reference *)
-Fixpoint hdu (deep : bool) (fuel : nat) (h : heap) (t s : hv) {struct fuel} : heap * hv :=
+Fixpoint hdu (deep rebuild : bool) (fuel : nat) (h : heap) (t s : hv) {struct fuel} : heap * hv :=
   match fuel with
   | O => (h, t)
   | S f =>
       match t with
       | HL _ _ =>
           match s with
-          | HR sl => if deep then hdeepcopy f h s                               (* copy.deepcopy(source) *)
+          | HR sl => if deep
+                     then let '(h1, _, c) := hdeepcopy f h [] s in             (* copy.deepcopy(source) *)
+                          if rebuild
+                          then let '(h2, e) := halloc h1 [] in hdu deep rebuild f h2 (HR e) c   (* deep_update({}, <the copy>) *)
+                          else (h1, c)
                      else let '(h', l) := halloc h (hget h sl) in (h', HR l)     (* copy.copy(source) *)
           | HL _ _ => (h, s)
           end
@@ -179,7 +198,7 @@ Fixpoint hdu (deep : bool) (fuel : nat) (h : heap) (t s : hv) {struct fuel} : he
                                           | Some x => (h, x)
                                           | None => let '(h', l) := halloc h [] in (h', HR l)    (* target.get(key, {}) *)
                                           end in
-                        let '(h2, r) := hdu deep f h1 cur (HR vl) in
+                        let '(h2, r) := hdu deep rebuild f h1 cur (HR vl) in
                         hset h2 tl (dset k r (hget h2 tl))                                     (* target[key] = ... *)
                     | HL d a => hset h tl (h_leaf_set (hget h tl) k (HL d a))
                     end)
@@ -201,7 +220,7 @@ Fixpoint hload_all (h : heap) (docs : list cv) : heap * list hv :=
 Definition hmerge_scenario (deep : bool) (base : cv) (srcs : list cv) : cv * list cv :=
   let '(h0, b) := hload [] base in
   let '(h1, ss) := hload_all h0 srcs in
-  let '(h2, r) := fold_left (fun (st : heap * hv) s => hdu deep hfuel (fst st) (snd st) s) ss (h1, b) in
+  let '(h2, r) := fold_left (fun (st : heap * hv) s => hdu deep false hfuel (fst st) (snd st) s) ss (h1, b) in
   (hreify hfuel h2 r, map (hreify hfuel h2) ss).
 
 (* some source document reads differently after the merges *)
@@ -211,3 +230,56 @@ Definition sources_modified (deep : bool) (base : cv) (srcs : list cv) : bool :=
 (* the ownership model on the same scenario *)
 Definition tmerge_all (deep : bool) (base : cv) (srcs : list cv) : tcv :=
   fold_left (fun t s => tdu deep t (tag_all true s)) srcs (tag_all false base).
+
+(* ---- documents whose sub-maps may be ONE object (YAML anchors/aliases, one dict under two keys) ---------------------- *)
+Inductive dcv :=
+| DLeaf (dflt : bool) (a : atom)
+| DNode (label : N) (kvs : list (list N * dcv))      (* label 0: no other reference to this dict; label n > 0: defines object n *)
+| DRef (label : N).                                  (* the dict object defined earlier (in document order) under this label *)
+
+Fixpoint label_get (n : N) (m : list (N * nat)) : option nat :=
+  match m with [] => None | (a, b) :: r => if N.eqb n a then Some b else label_get n r end.
+
+Fixpoint hload_dag (h : heap) (labels : list (N * nat)) (v : dcv) {struct v} : heap * list (N * nat) * hv :=
+  match v with
+  | DLeaf d a => (h, labels, HL d a)
+  | DRef n => (h, labels, match label_get n labels with Some l => HR l | None => HL false ANone end)
+  | DNode n m =>
+      let '(h1, labels1, items) :=
+        (fix go (h : heap) (labels : list (N * nat)) (m : list (list N * dcv)) {struct m} : heap * list (N * nat) * list (list N * hv) :=
+           match m with
+           | [] => (h, labels, [])
+           | (k, x) :: m' => let '(h1, l1, r) := hload_dag h labels x in
+                             let '(h2, l2, rest) := go h1 l1 m' in (h2, l2, (k, r) :: rest)
+           end) h labels m in
+      let '(h2, l) := halloc h1 items in
+      (h2, (if N.eqb n 0 then labels1 else (n, l) :: labels1), HR l)
+  end.
+
+(* the tree a document denotes value-wise (references expanded; fuel bounds depth + reference chains) *)
+Fixpoint def_get (n : N) (ds : list (N * dcv)) : option dcv :=
+  match ds with [] => None | (a, b) :: r => if N.eqb n a then Some b else def_get n r end.
+
+Fixpoint dag_expand (fuel : nat) (defs : list (N * dcv)) (v : dcv) {struct fuel} : cv :=
+  match fuel with
+  | O => Node []
+  | S f =>
+      match v with
+      | DLeaf d a => Leaf d a
+      | DNode _ m => Node (map (fun kv => (fst kv, dag_expand f defs (snd kv))) m)
+      | DRef n => match def_get n defs with Some d => dag_expand f defs d | None => Leaf false ANone end
+      end
+  end.
+
+(* merge scenario with shared sub-maps: load base and sources (each with its own labels), merge in order, read everything back *)
+Fixpoint hload_dag_all (h : heap) (docs : list dcv) : heap * list hv :=
+  match docs with
+  | [] => (h, [])
+  | d :: r => let '(h1, _, x) := hload_dag h [] d in let '(h2, xs) := hload_dag_all h1 r in (h2, x :: xs)
+  end.
+
+Definition hmerge_dag_scenario (deep rebuild : bool) (base : dcv) (srcs : list dcv) : cv * list cv :=
+  let '(h0, _, b) := hload_dag [] [] base in
+  let '(h1, ss) := hload_dag_all h0 srcs in
+  let '(h2, r) := fold_left (fun (st : heap * hv) s => hdu deep rebuild hfuel (fst st) (snd st) s) ss (h1, b) in
+  (hreify hfuel h2 r, map (hreify hfuel h2) ss).
